@@ -156,6 +156,30 @@ func init() {
 					emit(descBytes([]byte(f)) + " " + descBytes([]byte(t)))
 				}
 			}
+			// deep topics: every depth 1..12, with the literal filter, + at every level, # after every prefix,
+			// and filters one level shorter / longer
+			for d := 1; d <= 12; d++ {
+				var lv []string
+				for j := 0; j < d; j++ {
+					lv = append(lv, string(rune('a'+j)))
+				}
+				topic := strings.Join(lv, "/")
+				em := func(f string) { emit(descBytes([]byte(f)) + " " + descBytes([]byte(topic))) }
+				em(topic)
+				em(topic + "/#")
+				em(topic + "/+")
+				em(topic + "/z")
+				for j := 0; j < d; j++ {
+					c := append([]string{}, lv...)
+					c[j] = "+"
+					em(strings.Join(c, "/"))
+					em(strings.Join(append(append([]string{}, lv[:j]...), "#"), "/"))
+					if j > 0 {
+						em(strings.Join(lv[:j], "/"))
+						em(strings.Join(lv[:j], "/") + "/+")
+					}
+				}
+			}
 			for i := 0; i < n; i++ {
 				emit(descBytes([]byte(randFilterString(rng))) + " " + descBytes([]byte(randTopicString(rng))))
 			}
@@ -246,6 +270,71 @@ func init() {
 			if !strings.HasPrefix(topic, "$") && intsStr(want) != intsStr(called) {
 				r.Props = append(r.Props, viol("C14", "mux-dispatch", "topic %q: handlers called %v, matching filters %v", topic, called, want))
 			}
+			return r
+		}})
+
+	// a ServeMux used over time: Handle and Serve calls interleaved (every Serve must see exactly the handlers
+	// registered before it), topics served repeatedly
+	register(&funcEngine{name: "muxseq",
+		gen: func(rng *rand.Rand, tier string, n int, emit func(string)) {
+			emit("S:612f62 H:612f23 S:612f62 H:23 S:63 S:612f62")
+			emit("S:61 S:61 H:61 S:61 H:2b S:61 S:62 H:62 S:62")
+			deep := "612f622f632f642f652f662f672f682f69" // a/b/c/d/e/f/g/h/i (nine levels)
+			emit("H:" + deep + " H:612f622f632f642f652f662f672f682f2b H:612f622f632f642f652f662f672f2b S:" + deep + " S:612f622f632f642f652f662f672f68")
+			for i := 0; i < n; i++ {
+				pool := []string{descBytes([]byte(randTopicString(rng))), descBytes([]byte(randTopicString(rng))), "612f62", "61"}
+				k := 3 + rng.Intn(10)
+				var ops []string
+				for j := 0; j < k; j++ {
+					if rng.Intn(2) == 0 {
+						if rng.Intn(3) == 0 {
+							// a filter that matches one of the pool topics for sure
+							ops = append(ops, "H:"+pool[rng.Intn(len(pool))])
+						} else {
+							ops = append(ops, "H:"+descBytes([]byte(randFilterString(rng))))
+						}
+					} else {
+						ops = append(ops, "S:"+pool[rng.Intn(len(pool))])
+					}
+				}
+				emit(strings.Join(ops, " "))
+			}
+		},
+		exec: func(f []string) Result {
+			mux := &mqtt.ServeMux{}
+			var called []int
+			var outs []string
+			type reg struct {
+				i  int
+				fs string
+			}
+			var regs []reg
+			r := Result{Tags: []string{"nontrivial"}}
+			nh := 0
+			for _, op := range f {
+				arg := string(mustDesc(op[2:]))
+				if op[0] == 'H' {
+					i := nh
+					nh++
+					if err := mux.Handle(arg, mqtt.HandlerFunc(func(m *mqtt.Message) { called = append(called, i) })); err == nil {
+						regs = append(regs, reg{i, arg})
+					}
+					continue
+				}
+				called = nil
+				mux.Serve(&mqtt.Message{Topic: arg, Payload: []byte{1}})
+				outs = append(outs, intsStr(called))
+				var want []int
+				for _, g := range regs {
+					if specValidFilter(g.fs) && specMatch(specLevels(g.fs), specLevels(arg)) {
+						want = append(want, g.i)
+					}
+				}
+				if !strings.HasPrefix(arg, "$") && intsStr(want) != intsStr(called) {
+					r.Props = append(r.Props, viol("C14", "mux-dispatch-over-time", "Serve(%q) after %d Handle calls: handlers called %v, registered matching filters %v", arg, nh, called, want))
+				}
+			}
+			r.Out = strings.Join(outs, ";")
 			return r
 		}})
 
